@@ -259,7 +259,11 @@ func jMutations(root *jn, nBases int) []jMut {
 			}
 		}
 		if node.kind == 'o' {
-			add("add-key", "add unknown key to "+name, func(r *jn) { o := r.at(p); o.keys = append(o.keys, "zz"); o.vals = append(o.vals, &jn{kind: 'v', raw: "1"}) })
+			add("add-key", "add unknown key to "+name, func(r *jn) {
+				o := r.at(p)
+				o.keys = append(o.keys, "zz")
+				o.vals = append(o.vals, &jn{kind: 'v', raw: "1"})
+			})
 		}
 	})
 	// moves of optional sub-proofs between the proofs of the list
